@@ -56,6 +56,9 @@ type Iface struct {
 type Op struct {
 	K []byte `json:"k,omitempty"`
 	V Val    `json:"v"`
+	// BadKey (inside fieldsslice only): the key position holds a non-string value (an int), so the
+	// pair must be ignored, as documented for Fields
+	BadKey bool `json:"bad_key,omitempty"`
 }
 
 // Settings are zerolog's package-level knobs, set before and restored after
